@@ -1,7 +1,7 @@
 //! C07 — no source line is silently dropped; a bad line affects only itself.
 //!
-//! Space: all files of up to m lines over a 21-kind line alphabet (9 good,
-//! 12 bad) x line ending {LF, CRLF} x final newline {yes, no}, as base file and
+//! Space: all files of up to m lines over a 23-kind line alphabet (9 good,
+//! 14 bad) x line ending {LF, CRLF} x final newline {yes, no}, as base file and
 //! (one cut) with the tail in an included file.
 
 use crate::driver::*;
@@ -40,8 +40,10 @@ pub enum LineKind {
     BadStringTrailingBackslash,
     BadCharTrailingBackslash,
     JalrOneOperand,
+    BadLabelOperand,
+    BadStringOperand,
 }
-pub const KINDS: [LineKind; 21] = [
+pub const KINDS: [LineKind; 23] = [
     LineKind::Inst,
     LineKind::LabelInst,
     LineKind::Label,
@@ -63,6 +65,8 @@ pub const KINDS: [LineKind; 21] = [
     LineKind::BadStringTrailingBackslash,
     LineKind::BadCharTrailingBackslash,
     LineKind::JalrOneOperand,
+    LineKind::BadLabelOperand,
+    LineKind::BadStringOperand,
 ];
 
 impl LineKind {
@@ -81,6 +85,8 @@ impl LineKind {
                 | LineKind::BadStringEscape
                 | LineKind::BadStringTrailingBackslash
                 | LineKind::BadCharTrailingBackslash
+                | LineKind::BadLabelOperand
+                | LineKind::BadStringOperand
         )
     }
     pub fn has_content(self) -> bool {
@@ -109,6 +115,8 @@ impl LineKind {
             LineKind::BadStringTrailingBackslash => "bad-string-trailing-backslash",
             LineKind::BadCharTrailingBackslash => "bad-char-trailing-backslash",
             LineKind::JalrOneOperand => "jalr-one-operand",
+            LineKind::BadLabelOperand => "bad-label-definition-as-operand",
+            LineKind::BadStringOperand => "bad-string-as-operand",
         }
     }
     /// text of the line; `i` makes labels unique
@@ -135,6 +143,8 @@ impl LineKind {
             LineKind::BadStringTrailingBackslash => "    .asciz \"ab\\".into(),
             LineKind::BadCharTrailingBackslash => "    li a0, '\\".into(),
             LineKind::JalrOneOperand => "    jalr t0".into(),
+            LineKind::BadLabelOperand => format!("    beq t0, t1, dest{i}:"),
+            LineKind::BadStringOperand => "    li a0, \"x\\ny\"".into(),
         }
     }
 }
